@@ -29,23 +29,17 @@ const char* ConnTypeName(ConnectionType t)
 // ------------------------------------------------------------------------------------ Net
 Net::Net(ck::Node& node, NetOpts opts) : n(node), o(std::move(opts))
 {
-    auto T = [t0 = std::chrono::steady_clock::now()](const char* w) { if (getenv("PK_TIMING")) fprintf(stderr, "  pk %s %.1fms\n", w, std::chrono::duration<double>(std::chrono::steady_clock::now() - t0).count() * 1e3); };
     SeedRandomStateForTest(SeedRand::ZEROS);
-    T("seed");
     netgroupman = std::make_unique<NetGroupManager>(NetGroupManager::NoAsmap());
     addrman = std::make_unique<AddrMan>(*netgroupman, /*deterministic=*/true, /*consistency_check_ratio=*/0);
-    T("addrman");
     banman = std::make_unique<BanMan>(n.m_args.GetDataDirBase() / "banlist", nullptr, DEFAULT_MISBEHAVING_BANTIME);
-    T("banman");
     connman = std::make_unique<ConnmanTestMsg>(0x1337, 0x1337, *addrman, *netgroupman, Params());
-    T("connman");
     PeerManager::Options po;
     node::ApplyArgsManOptions(n.m_args, po);
     po.deterministic_rng = true;
     po.ignore_incoming_txs = o.blocksonly;
     if (o.peerman_tweak) o.peerman_tweak(po);
     peerman = PeerManager::make(*connman, *addrman, banman.get(), n.chainman(), n.pool(), *Assert(n.m_node.warnings), po);
-    T("peerman");
     {
         CConnman::Options co;
         co.m_msgproc = peerman.get();
